@@ -41,7 +41,7 @@ RULE = ("call sequences generated from one PRNG. Landscaper: constructor with an
         "all-infinite); a quarter of the histories are refit pipelines (fit / fit_transform on one fold, clone or "
         "set_params(**get_params()) or nothing, refit on another fold, 2-4 rounds). Imager: constructor with any subset of ranges/pixel size, 0-10 calls from "
         "{birth_range=, pers_range=, pixel_size=, fit, transform, fit_transform} with single diagrams, collections (also with empty "
-        "members) and empty inputs. non-trivial = at least one fit or fit_transform followed by another call; distinct by digest")
+        "members) and empty inputs; in the law stream skew is passed by position in about half of the cases. non-trivial = at least one fit or fit_transform followed by another call; distinct by digest")
 ASSUMPTIONS = [
     "diagrams are float arrays of shape (-,2); landscaper diagrams may contain non-finite coordinates (ignored by fit), imager "
     "diagrams are finite; user-assigned start/stop are finite numbers or None",
@@ -795,7 +795,11 @@ def i_laws(ctx):
         coll.insert(r.randint(1, len(coll)), [])
     skew = r.random() < 0.6                      # the flag travels with the data: the same value to fit, transform and fit_transform
     alias = r.random() < 0.25                    # the collection repeats one ndarray OBJECT (a diagram listed twice)
-    case = {"ctor": {"pixel_size": ps, "kernel_params": kp}, "calls": hist, "X": coll, "skew": skew, "alias": alias}
+    # `skew` is the second parameter of fit / transform / fit_transform: handed over by position in about half of the cases
+    # (decided by the data, not by a further random draw, so that the case stream is the one earlier runs recorded)
+    pos = sum(len(d) for d in coll) % 2 == 1
+    ctx.count("imager_laws:skew_by_position" if pos else "imager_laws:skew_by_keyword")
+    case = {"ctor": {"pixel_size": ps, "kernel_params": kp}, "calls": hist, "X": coll, "skew": skew, "alias": alias, "positional": pos}
     ok, text, notes = i_law_body(case)
     return ok, text, case, notes
 
@@ -829,12 +833,18 @@ def _i_law_body(case, notes):
         k1, k2 = dc(obj), dc(obj)
         kX = fitX + [fitX[0]] if alias else fitX
         kX0 = [np.array(a, copy=True) for a in kX]
-        P("fit", k1.fit, kX, skew=skew)
-        ka = P("transform", k1.transform, kX, skew=skew)
-        kb = P("fit_transform", k2.fit_transform, kX, skew=skew)
+        if case.get("positional"):
+            P("fit", k1.fit, kX, skew)
+            ka = P("transform", k1.transform, kX, skew)
+            kb = P("fit_transform", k2.fit_transform, kX, skew)
+        else:
+            P("fit", k1.fit, kX, skew=skew)
+            ka = P("transform", k1.transform, kX, skew=skew)
+            kb = P("fit_transform", k2.fit_transform, kX, skew=skew)
         if not out_eq(ka, kb) or i_public(k1) != i_public(k2):
-            return False, "fit(X, skew=%s);transform(X, skew=%s) and fit_transform(X, skew=%s) differ%s" % (
-                skew, skew, skew, " (X lists one array object twice)" if alias else "")
+            kw = "" if case.get("positional") else "skew="
+            return False, "fit(X, %s%s);transform(X, %s%s) and fit_transform(X, %s%s) differ%s" % (
+                kw, skew, kw, skew, kw, skew, " (X lists one array object twice)" if alias else "")
         if any(not np.array_equal(a, b) for a, b in zip(kX, kX0)):
             return False, "fit / transform / fit_transform changed the caller's diagrams"
         o1, o2 = dc(obj), dc(obj)
